@@ -6,7 +6,7 @@
 (*   VERIF_GRAMMARS  ndjson, one grammar per line (tools/gram.py)          *)
 (*   VERIF_DUMPS     ndjson, one dump per line, same order (harness/rt.hpp)*)
 (***************************************************************************)
-EXTENDS LR1, Json, IOUtils
+EXTENDS LR1, Regex, RegexSyntax, Json, IOUtils
 
 Gs == ndJsonDeserialize(IOEnv.VERIF_GRAMMARS)
 NG == Len(Gs)
@@ -32,4 +32,38 @@ GRof(gg) == [nnt |-> Gs[gg].nnt, nt |-> Gs[gg].nt, R |-> A[gg].R, tnames |-> Gs[
 RECURSIVE FirstCharTerm(_, _, _)
 FirstCharTerm(tb, b, j) == IF j > Len(tb) THEN -1 ELSE IF tb[j] = b THEN TB + j - 1 ELSE FirstCharTerm(tb, b, j + 1)
 LexChars(gg, bytes, p) == LET t == FirstCharTerm(Gs[gg].tbytes, bytes[p + 1], 1) IN IF t = -1 THEN <<-1, 0>> ELSE <<t, 1>>
+
+(***************************************************************************)
+(* Reference lexer for arbitrary term sets (C04): longest match over the   *)
+(* per-term reference languages, first listed term wins ties.  Terms come  *)
+(* as [kind, data]: "C"/"S" literal bytes, "R" a pattern whose meaning is  *)
+(* RegexSyntax!Doc (the documented syntax), evaluated by derivatives over  *)
+(* byte values.  Nothing of the generated automaton is used.               *)
+(***************************************************************************)
+RECURSIVE BinList(_, _, _)
+RECURSIVE Bin(_)
+BinList(kind, xs, k) == IF k = Len(xs) THEN Bin(xs[k]) ELSE [op |-> kind, a |-> Bin(xs[k]), b |-> BinList(kind, xs, k + 1)]
+Bin(a) == CASE a.op \in {"set", "eps"} -> a
+            [] a.op \in {"star", "plus", "opt"} -> [op |-> a.op, a |-> Bin(a.a)]
+            [] a.op = "rep" -> [op |-> "rep", a |-> Bin(a.a), n |-> a.n]
+            [] a.op = "catl" -> BinList("cat", a.xs, 1)
+            [] a.op = "altl" -> BinList("alt", a.xs, 1)
+RECURSIVE LitChain(_, _)
+LitChain(bs, k) == IF k = Len(bs) THEN Lit(bs[k]) ELSE [op |-> "cat", a |-> Lit(bs[k]), b |-> LitChain(bs, k + 1)]
+LexTermAst(t) == IF t.kind = "R" THEN Bin(Doc(t.data).ast) ELSE LitChain(t.data, 1)
+RECURSIVE BuildLexAsts(_, _)
+BuildLexAsts(lo, hi) ==
+  IF lo > hi THEN <<>>
+  ELSE IF lo = hi THEN << IF Gs[lo].lex = "ref" THEN TLCEval([t \in 1..Len(Gs[lo].lexterms) |-> LexTermAst(Gs[lo].lexterms[t])]) ELSE <<>> >>
+  ELSE LET m == (lo + hi) \div 2 IN BuildLexAsts(lo, m) \o BuildLexAsts(m + 1, hi)
+LexAsts == BuildLexAsts(1, NG)
+
+RECURSIVE LexScan(_, _, _, _, _)
+LexScan(dsets, bytes, i, p, best) ==      \* dsets[t] = derivative set of term t after bytes[p+1..i]
+  LET ok == {t \in DOMAIN dsets : AnyNul(dsets[t])}
+      b2 == IF ok = {} THEN best ELSE <<TB + (CHOOSE t \in ok : \A u \in ok : t <= u) - 1, i - p>>
+  IN IF i = Len(bytes) \/ \A t \in DOMAIN dsets : dsets[t] = {} THEN b2
+     ELSE LexScan([t \in DOMAIN dsets |-> PDSet(bytes[i + 1], dsets[t])], bytes, i + 1, p, b2)
+LexRefAt(gg, bytes, p) == LexScan([t \in DOMAIN LexAsts[gg] |-> {LexAsts[gg][t]}], bytes, p, p, <<-1, 0>>)
+LexDispatch(gg, bytes, p) == IF Gs[gg].lex = "chars" THEN LexChars(gg, bytes, p) ELSE LexRefAt(gg, bytes, p)
 =============================================================================
